@@ -319,4 +319,90 @@ def r5_statuses_backed_by_writes(chk):
             chk.ob('C20.R5', o.key, o.ok, o.where, o.detail)
 
 
-RULES = [r1_exit_codes, r2_report, r3_options, r4_mibcopy, r5_statuses_backed_by_writes]
+def _dn(n):
+    return dotted_name(n) or ''
+
+
+def r6_format_wiring(chk):
+    model = chk.model
+    mod = model.mod(MIBDUMP)
+    chk.doc('C20.R6', 'mibdump wires searcher, writer and borrower of one destination format to one directory expression '
+                      'and one file suffix (file searcher(dir) / file writer(dir); for the suffix-parameterised classes '
+                      'writer suffix == searcher exts == borrower exts); the branch of a format instantiates that '
+                      'format\'s code generator; the compiler is built from the generator and writer so chosen and '
+                      'receives sources, searchers and borrowers')
+    # the format dispatch: if dstFormat == '<fmt>' ... elif ...
+    branches = {}
+    for node in ast.walk(mod.tree):
+        if isinstance(node, ast.If):
+            if isinstance(node.test, ast.Compare) and len(node.test.ops) == 1 and \
+                    isinstance(node.test.ops[0], ast.Eq) and isinstance(node.test.comparators[0], ast.Constant) and \
+                    node.test.comparators[0].value in ('pysnmp', 'json', 'null') and \
+                    any(isinstance(x, ast.Call) and _dn(x.func).endswith('CodeGen') for s_ in node.body
+                        for x in ast.walk(s_)):
+                branches[node.test.comparators[0].value] = node.body
+    chk.ob('C20.R6', 'format-dispatch', sorted(branches) == ['json', 'null', 'pysnmp'], MIBDUMP, '%s' % sorted(branches))
+    gens = {'pysnmp': 'PySnmpCodeGen', 'json': 'JsonCodeGen', 'null': 'NullCodeGen'}
+    tgt = {}
+    for fmt, body in sorted(branches.items()):
+        calls = [c for s_ in body for c in ast.walk(s_) if isinstance(c, ast.Call)]
+        made = [_dn(c.func) for c in calls if _dn(c.func).endswith('CodeGen')]
+        chk.ob('C20.R6', '%s/generator' % fmt, made == [gens[fmt]], MIBDUMP, 'instantiated %s' % made)
+        for s_ in body:
+            if isinstance(s_, ast.Assign) and isinstance(s_.value, ast.Call) and \
+                    _dn(s_.value.func).endswith('CodeGen'):
+                tgt.setdefault('gen', set()).add(norm(s_.targets[0]))
+        dirs, sufs = {}, {}
+        for c in calls:
+            nm = _dn(c.func)
+            if nm in ('PyFileSearcher', 'AnyFileSearcher', 'PyFileWriter', 'FileWriter') and c.args:
+                dirs[nm] = norm(c.args[0])
+            if isinstance(c.func, ast.Attribute) and c.func.attr == 'setOptions' and isinstance(c.func.value, ast.Call):
+                inner = _dn(c.func.value.func)
+                for k in c.keywords:
+                    if k.arg in ('exts', 'suffix'):
+                        try:
+                            v = ast.literal_eval(k.value)
+                        except Exception:
+                            v = norm(k.value)
+                        sufs[inner] = sorted(v) if isinstance(v, (list, tuple)) else [v]
+            if nm in ('PyFileWriter', 'FileWriter', 'CallbackWriter'):
+                st = common.stmt_of(c)
+                if isinstance(st, ast.Assign):
+                    tgt.setdefault('wr', set()).add(norm(st.targets[0]))
+        if fmt != 'null':
+            chk.ob('C20.R6', '%s/one-directory' % fmt, len(dirs) == 2 and len(set(dirs.values())) == 1, MIBDUMP,
+                   'searcher and writer directories: %s' % dirs)
+        if fmt == 'json':
+            ok = set(sufs) >= {'AnyFileSearcher', 'FileWriter', 'AnyFileBorrower'} and \
+                len(set(tuple(v) for v in sufs.values())) == 1
+            chk.ob('C20.R6', 'json/one-suffix', ok, MIBDUMP, 'suffixes %s' % sufs)
+        if fmt == 'pysnmp':
+            # PyFileWriter / PyFileSearcher / PyFileBorrower share the .py convention by class; nothing may override it
+            chk.ob('C20.R6', 'pysnmp/no-suffix-override', not any(k in sufs for k in ('PyFileWriter', 'PyFileSearcher')),
+                   MIBDUMP, 'suffixes %s' % sufs)
+        chk.ob('C20.R6', '%s/stub-searcher' % fmt, any(_dn(c.func) == 'StubSearcher' and
+               [norm(a) for a in c.args] == ['*mibStubs'] for c in calls) or fmt == 'pysnmp', MIBDUMP, '')
+    dirnames = set()
+    for fmt, body in branches.items():
+        for c in [c for s_ in body for c in ast.walk(s_) if isinstance(c, ast.Call)]:
+            if _dn(c.func) in ('PyFileWriter', 'FileWriter') and c.args:
+                dirnames.add(norm(c.args[0]))
+    chk.ob('C20.R6', 'one-destination-variable', len(dirnames) == 1 and isinstance(
+        ast.parse(list(dirnames)[0], mode='eval').body, ast.Name), MIBDUMP, '%s' % sorted(dirnames))
+    comp = [c for c in ast.walk(mod.tree) if isinstance(c, ast.Call) and _dn(c.func) == 'MibCompiler']
+    ok = len(comp) == 1 and len(comp[0].args) == 3 and len(tgt.get('gen', ())) == 1 and len(tgt.get('wr', ())) == 1 and \
+        [norm(a) for a in comp[0].args][1:] == [list(tgt['gen'])[0], list(tgt['wr'])[0]]
+    chk.ob('C20.R6', 'compiler-components', ok, MIBDUMP, '%s gen=%s writer=%s' % (
+        [norm(c)[:80] for c in comp], sorted(tgt.get('gen', ())), sorted(tgt.get('wr', ()))))
+    order = sorted(c.func.attr for c in ast.walk(mod.tree) if isinstance(c, ast.Call) and
+                   isinstance(c.func, ast.Attribute) and c.func.attr in ('addSources', 'addSearchers', 'addBorrowers'))
+    chk.ob('C20.R6', 'component-lists-added', order == ['addBorrowers', 'addSearchers', 'addSources'], MIBDUMP, '%s' % order)
+    for attr, var in (('addSearchers', 'searchers'), ('addBorrowers', 'borrowers')):
+        cs = [c for c in ast.walk(mod.tree) if isinstance(c, ast.Call) and isinstance(c.func, ast.Attribute) and
+              c.func.attr == attr]
+        chk.ob('C20.R6', '%s-arg' % attr, len(cs) == 1 and [norm(a) for a in cs[0].args] == ['*' + var], MIBDUMP,
+               '%s' % [norm(c)[:60] for c in cs])
+
+
+RULES = [r1_exit_codes, r2_report, r3_options, r4_mibcopy, r5_statuses_backed_by_writes, r6_format_wiring]
